@@ -78,6 +78,8 @@ func (s *SwitchPool) GetOne(ctx context.Context, client client.VPC, zone string,
 
 	switch selectOptions.VSwitchSelectPolicy {
 	case VSwitchSelectionPolicyRandom:
+		// shuffle a copy, the caller's list is shared and must stay untouched
+		ids = append([]string(nil), ids...)
 		rand.Shuffle(len(ids), func(i, j int) { ids[i], ids[j] = ids[j], ids[i] })
 	case VSwitchSelectionPolicyMost:
 		// lookup all vsw in cache and get one matched
@@ -143,6 +145,10 @@ func (s *SwitchPool) GetByID(ctx context.Context, client client.VPC, id string) 
 	v, ok := s.cache.Get(id)
 	if !ok {
 		v, err, _ := s.g.Do(id, func() (interface{}, error) {
+			// re-check, a previous flight may have filled (or Block may have zeroed) the entry
+			if cached, ok := s.cache.Get(id); ok {
+				return cached, nil
+			}
 			resp, err := client.DescribeVSwitchByID(ctx, id)
 			if err != nil {
 				return nil, fmt.Errorf("error get vSwitch %s, %w", id, err)
@@ -154,13 +160,14 @@ func (s *SwitchPool) GetByID(ctx context.Context, client client.VPC, id string) 
 				IPv4CIDR:         resp.CidrBlock,
 				IPv6CIDR:         resp.Ipv6CidrBlock,
 			}
+			// publish inside the flight: a late Add by a waiter must not overwrite a Block
+			s.cache.Add(sw.ID, sw, s.ttl)
 			return sw, nil
 		})
 		if err != nil {
 			return nil, err
 		}
 		vsw := v.(*Switch)
-		s.cache.Add(vsw.ID, vsw, s.ttl)
 
 		return vsw, nil
 	}
